@@ -2,7 +2,9 @@
 from contracts import search
 from props.common import *  # noqa: F401,F403
 
-FUNCTIONS = SEARCH_FUNCS + DESIGN_FUNCS + [f"{S}:RowWiseModifiedBisectionSearch.calculate_excess"]
+from contracts import rowsearch  # noqa: E402
+
+FUNCTIONS = SEARCH_FUNCS + DESIGN_FUNCS + [f"{S}:RowWiseModifiedBisectionSearch.calculate_excess"] + rowsearch.ROWSEARCH
 NATIVE_FUNCTIONS = SEARCH_NATIVES
 LEVEL = "other"
 
@@ -16,16 +18,17 @@ ASSUMPTIONS = [A_REAL, A_ENGINE, A_DET, A_ORACLE,
                "A-NODE: evaluating the three-height g-function family at a stored height equals the single-height computation (hypothesis of the manager-level clause; C11 proves the interpolation part)",
                "A-HMONO: feasibility at the minimum height implies feasibility at the maximum height (hypothesis of the manager-level clause)",
                "A-LIP: |d excess / d height| <= 0.5 K/m on the sizing window and heights <= 400 m (hypothesis of lemma root-within-sizing-tolerance)",
-               "RowWise search: covered by the bounded oracle-stubbed run-time contract only (see NOT_PROVED)"]
-NOT_PROVED = ["RowWiseModifiedBisectionSearch.search is not under a discharged contract yet (bounded stand-in only)",
-              "manager-level clause is proved for the near-square and rectangle designs; bi-rectangle / bi-zoned / constrained are proved at the level of their search classes (Bisection2D.__init__, BisectionZD.*)",
+               "RowWise search (contracts/rowsearch.py): fields are abstract references; FIELD(spacing) = the sweep's result for the search's fixed lot / zones / window (A-DET, at least one borehole ASSUMED); "
+               "A-PERM: the excess of a field does not depend on the order of its boreholes (point_sort only reorders; nested helper used through an ASSUMED view); A-SINGLE: the excess of a "
+               "one-borehole field does not depend on where the borehole stands (the search evaluates [[0,0]] and returns the last borehole of the sorted field); spacing_step > 0"]
+NOT_PROVED = ["manager-level clause is proved for the near-square and rectangle designs; bi-rectangle / bi-zoned / constrained are proved at the level of their search classes (Bisection2D.__init__, BisectionZD.*)",
               "numerical tolerance 1e-3 K rests on A-BRENT + A-LIP (lemma), not on the floating-point code"]
 EXPLANATION = ("GHE.size ensures min_height <= H <= max_height (solve_root: brentq stays in the bracket, the clamp arms return a bracket end) and find_design ends with size. "
                "Bisection1D.search ensures count(selected) < max_boreholes for lists with non-decreasing counts (C03) or distinct excess values; the unmet arms raise ValueError "
                "exactly when continue_if_design_unmet is off and otherwise return the smallest candidate at min height / the largest allowed at max height. "
                "Every subscript, [-1], .index, division, max() and None-attribute site of the verified functions carries a safety obligation, so no exception other than the "
                "declared ValueError escapes them (under non-degenerate excess: never exactly zero).")
-LEVEL_TEXT = ("[level other because RowWiseModifiedBisectionSearch.search, one of the search classes the statement quantifies over, is covered only by a bounded oracle-stubbed run-time contract] Deductive proof for all candidate lists, caps >= 2, height windows and both policy settings: returned height within [min,max]; borehole count below the cap; "
+LEVEL_TEXT = ("[level other because 'no other exception type escapes' for the row-wise method also depends on the field generator gen_borehole_config, which is not under a discharged contract (C14); RowWise search itself is proved: ValueError exactly for 'nothing fits and not continuing' or an unhandled sign pattern, every subscript / division site inside it safe] Deductive proof for all candidate lists, caps >= 2, height windows and both policy settings: returned height within [min,max]; borehole count below the cap; "
               "ValueError exactly in the unmet-and-not-continued case, else smallest@min / largest-allowed@max; no implicit exception (index, key, division, empty max, None) "
               "is reachable in the verified search, sizing and constructor code. RowWise search is bounded only.")
 LEVEL_NOTE = "Trusted: pyvc, z3/cvc5, brentq model (A-BRENT), A-NODE, A-HMONO, A-LIP, A-DET, A-REAL; RowWise search only bounded."
